@@ -345,6 +345,8 @@ class World:
         self.broker.tap("asl_workflow_engine", "#", self._on_notification)
         self.after_step = []        # monitors: fn(world, label)
         self.engine_exceptions = [] # exceptions that escaped an engine callback
+        self.eager_time = True      # offer "advance the clock" even while deliveries are enabled (models slow delivery)
+        self.choice_log = []        # number of enabled actions at every step (for exhaustive schedule enumeration)
 
     # ------------------------------------------------------------ plumbing
     def _on_notification(self, msg):
@@ -410,7 +412,7 @@ class World:
             acts.append(("deliver", q, c))
         for t in b.due_timers():
             acts.append(("fire", t))
-        if b.next_deadline() is not None and not b.due_timers():
+        if b.next_deadline() is not None and not b.due_timers() and (self.eager_time or not acts):
             acts.append(("advance",))
         return acts
 
@@ -441,6 +443,7 @@ class World:
         acts = self.enabled()
         if not acts:
             return None
+        self.choice_log.append(len(acts))
         act = acts[choice % len(acts)] if choice else acts[0]
         return self.perform(act)
 
@@ -448,6 +451,7 @@ class World:
         b = self.broker
         label = self.label(act)
         self.steps += 1
+        b.step_no = self.steps
         self.trace.append(label)
         crashed = None
         try:
